@@ -44,7 +44,8 @@ CHECKS = {
             "Feasibility for k at / above the TLC-computed covering number, k=None picks it, the slack inequality per element "
             "and minimal total slack (integer weights) are decided by TLC per observation."),
     "C09": ("model_checking", "6/C09",
-            "Cover adversary (Adv_Cover.tla): minimality, k-feasibility threshold and width = optimum as reachability questions",
+            "Cover adversary (Adv_Cover.tla): minimality, k-feasibility threshold and width = optimum as reachability questions; "
+            "Width.tla: the construction behind get_width equals the antichain definition (MC over the universes)",
             "TLC decides, per observation, whether a cover with fewer routes exists, whether kPathCover(k) should be "
             "feasible, and both inequalities of width = min cover."),
     "C10": ("model_checking", "6/C10",
@@ -63,8 +64,8 @@ CHECKS = {
             "Design-level exactness of the three gadgets for ub<=12; emitted rows of the real helpers enumerated exactly for "
             "small bounds and probed through HiGHS for larger; call histories validated state by state."),
     "C13": ("model_checking", "6/C13",
-            "Lifecycle.tla (MC) generates every fault schedule; injected into the real solver wrapper; traces replayed through "
-            "Lifecycle's actions by Trace_Lifecycle.tla",
+            "Lifecycle.tla (MC, and a TLAPS proof of its invariants for every optimum: proofs/Lifecycle_proofs.tla) generates every "
+            "fault schedule; injected into the real solver wrapper; traces replayed through Lifecycle's actions by Trace_Lifecycle.tla",
             "Every position x every inconclusive status (native time limit, interrupt, unknown, custom timeout) of every "
             "minimum search, nested helper searches, k-models and NumPathsOptimization; the observed invocation trace must be "
             "a behaviour of the specification and end in the specified outcome."),
